@@ -23,6 +23,12 @@ func (c *ClientChannel) receiveSessionFromServer(ctx context.Context) (*Session,
 		return nil, fmt.Errorf("receive session: %w", err)
 	}
 
+	// The server cannot move the session back to a previous state
+	if state := c.State(); ses.State.Step() < state.Step() {
+		_ = c.transport.Close()
+		return nil, fmt.Errorf("receive session: invalid state transition from %v to %v", state, ses.State)
+	}
+
 	if ses.State == SessionStateEstablished {
 		c.localNode = ses.To
 		c.remoteNode = ses.From
